@@ -93,6 +93,17 @@ CHECKS["C06"] = ("SseWsgi.tla, StreamAsgi.tla, TraceStreamAsgi.tla",
     "The ASGI model is a property automaton over observed events, not an interleaving model of the tasks.",
     "DESIGN.md 5 C06")
 
+CHECKS["C10"] = ("RequestBody.tla",
+    "TLC exhaustive model check of user tasks and the shared body/json/form futures of cached_property under every "
+    "interleaving (OnceOnly, BodyExact, CacheStable, ErrorsDocumented); the model's terminal states give, per scenario, the set "
+    "of admissible outcome vectors; every scenario run on the real Request (ASGI under virtual time, all task orders x 4 message "
+    "timings; WSGI sequentially) must produce one of them, plus value/identity clauses on what the accessors returned",
+    "All access programs up to length 2 (selected 3) for one task, pairs (thorough: triples) of concurrent tasks, 1-2 chunks, a "
+    "disconnect at every position, three content types. The model over-approximates asyncio's FIFO scheduling, so a real outcome "
+    "outside the admissible set is a violation.",
+    "Trusted: TLC, harness/vloop.py. Outcome-level refinement: intermediate states of the real object are not compared.",
+    "DESIGN.md 5 C10")
+
 NOT_YET = {}
 
 ALL = ["C%02d" % i for i in range(1, 21)]
